@@ -83,7 +83,7 @@ def run(ctx):
     ws = [w for w in H.state_stores(sr, r".") if w["path"] == "self.referrer"]
     ok = len(ws) == 1
     if ok:
-        facts = A.cmp_facts(sr, ws[0]["bb"])
+        facts = H.facts_at(sr, ws[0]["bb"])
         a = _fact_const(facts, "==", r"^self\.referrer$")
         b = _fact_const(facts, "!=", r"^referrer_user\.owner$")
         v = str(ws[0]["rv"]) == "referrer_user.owner"
@@ -96,7 +96,7 @@ def run(ctx):
     ctx.ob("write-once:Referral::set_referrer:other-stores", others == ["referrer_user.referral.referee_count"],
            "set_referrer's only other store is the referee counter: %s" % others, where=sr.where())
     ws = [w for w in H.state_stores(sc, r".")]
-    ok = len(ws) == 1 and ws[0]["path"] == "self.code" and str(ws[0]["rv"]) == "code" and _fact_const(A.cmp_facts(sc, ws[0]["bb"]), "==", r"^self\.code$")
+    ok = len(ws) == 1 and ws[0]["path"] == "self.code" and str(ws[0]["rv"]) == "code" and _fact_const(H.facts_at(sc, ws[0]["bb"]), "==", r"^self\.code$")
     ctx.ob("write-once:Referral::set_code", ok, "set_code stores `code` into self.code only under self.code == <unset constant>: %s" % ok, where=sc.where())
     H.atomic(ctx, "write-once:atomic:Referral::set_referrer", sr, root_re=r"^(self|referrer_user)\b", floor=2)
     H.atomic(ctx, "write-once:atomic:Referral::set_code", sc, floor=1)
@@ -143,7 +143,7 @@ def run(ctx):
     ctx.ob("transfer:stores", vals == exp, "complete_code_transfer stores %s (expected %s)" % (vals, exp), where=ct.where())
     good = bool(ws)
     for k, w in ws.items():
-        facts = A.cmp_facts(ct, w["bb"])
+        facts = H.facts_at(ct, w["bb"])
         good = good and _fact_const(facts, "==", r"^receiver_user\.referral\.code$") and A.has_fact(facts, "==", r"^receiver_user\.owner$", r"^code\.next_owner$") \
             and A.has_bool_fact(facts, True, r"^UserHeader::is_initialized\(receiver_user\)$") and A.has_bool_fact(facts, True, r"^UserHeader::is_initialized\(self\)$")
     ctx.ob("transfer:guards", good,
@@ -152,7 +152,7 @@ def run(ctx):
     # propose: set_next_owner(code, receiver_user.owner) under receiver.code unset
     cs = [c for c in tc.calls if c.short == "ReferralCodeV2::set_next_owner"]
     ok = len(cs) == 1 and [str(cs[0].arg_expr(i)) for i in range(2)] == ["code", "receiver_user.owner"] \
-        and _fact_const(A.cmp_facts(tc, cs[0].bb), "==", r"^receiver_user\.referral\.code$") and not H.state_stores(tc, r".")
+        and _fact_const(H.facts_at(tc, cs[0].bb), "==", r"^receiver_user\.referral\.code$") and not H.state_stores(tc, r".")
     ctx.ob("transfer:propose", ok, "unchecked_transfer_code only proposes: set_next_owner(code, receiver_user.owner) under receiver's code unset, no direct store: %s" % ok, where=tc.where())
     w_ = H.state_stores(sn, r".")
     ok = len(w_) == 1 and w_[0]["path"] == "self.next_owner" and str(w_[0]["rv"]) == "next_owner"
@@ -169,7 +169,7 @@ def run(ctx):
         ok = len(cs) == 1
         if ok:
             c = cs[0]
-            facts = A.cmp_facts(h, c.bb)
+            facts = H.facts_at(h, c.bb)
             a = A.has_fact(facts, "!=", r"^AccountLoader::load\(ctx\.accounts\.referrer_user\)\?\.referral\.referrer$", r"^AccountLoader::load\(ctx\.accounts\.user\)\?\.owner$")
             b = [str(c.arg_expr(i)) for i in range(2)] == ["AccountLoader::load_mut(ctx.accounts.user)?.referral", "AccountLoader::load_mut(ctx.accounts.referrer_user)?"]
             p = H.propagated(h, c) and H.must_pass(h, 0, sorted(h.ok_exit_blocks()), [H.ok_edge(h, c)])
